@@ -425,6 +425,80 @@ def stmt_vars(k):
     return u
 
 
+# ------------------------------------------------------------------ the listed open finding
+
+def rename_expr(e, m):
+    k = e[0]
+    if k == "var":
+        return ["var", m.get(e[1], e[1])]
+    if k == "not":
+        return ["not", rename_expr(e[1], m)]
+    if k == "if":
+        return ["if"] + [rename_expr(x, m) for x in e[1:4]]
+    if k == "bin":
+        return ["bin", e[1], rename_expr(e[2], m), rename_expr(e[3], m)]
+    if k == "nary":
+        return ["nary", e[1], [rename_expr(x, m) for x in e[2]]]
+    if k == "call":
+        return ["call", e[1], [rename_expr(x, m) for x in e[2]], [[n, rename_expr(v, m)] for n, v in e[3]]]
+    if k == "pow":
+        return ["pow", rename_expr(e[1], m), rename_expr(e[2], m)]
+    if k == "lookup":
+        return ["lookup", rename_expr(e[1], m), e[2]]
+    return e
+
+
+def written_names(k):
+    return {k[1]} if k[0] == "assign" else set(k[1]) if k[0] == "call" else set()
+
+
+def a3_violations(prog, store):
+    """loop-counter names that hypothesis A3 of C02_all_schedules excludes: present in the initial
+    store or assigned by some statement of the program"""
+    stmts = [c[1] for c in prog if c[0] == "stmt"]
+    written = set().union(set(), *[written_names(k) for k in stmts])
+    lvs = {lv for k in stmts if k[0] == "assign" for lv, _, _ in k[4]}
+    return sorted(lv for lv in lvs if lv in store or lv in written)
+
+
+def alpha_rename_loop_counters(prog):
+    """the same program with every loop counter renamed, statement by statement, to a name used
+    nowhere else (bound occurrences: inner bounds, lhs subscript, rhs) -- A3 then holds"""
+    out = []
+    for n, c in enumerate(prog):
+        if c[0] == "stmt" and c[1][0] == "assign" and c[1][4]:
+            _, x, sub, rhs, loops = c[1]
+            m, loops2 = {}, []
+            for j, (lv, lo, hi) in enumerate(loops):
+                lo2, hi2 = rename_expr(lo, m), rename_expr(hi, m)
+                m = dict(m)
+                m[lv] = "lc%d_%d" % (n, j)
+                loops2.append([m[lv], lo2, hi2])
+            c = ["stmt", ["assign", x, rename_expr(sub, m) if sub is not None else None, rename_expr(rhs, m), loops2]]
+        out.append(c)
+    return out
+
+
+def classify_known(o, prog, store):
+    """loop_counter_shadows_variable: the schedules differ, the program uses as loop counter a name
+    that is also an ordinary variable (A3 violated), and with the counters renamed apart the real
+    builder's schedules all agree again."""
+    if not o or o.get("kind") != "schedule_differs" or not a3_violations(prog, store):
+        return None
+    prog2 = alpha_rename_loop_counters(prog)
+    try:
+        nm, cb2 = fresh_names(prog2)
+        o2, _ = oracle(random.Random(1), prog2, cb2, nm, store)
+    except Exception:  # noqa: BLE001
+        return None
+    if o2 is not None or fresh_collision(prog2, nm) is not None:
+        return None
+    for f in common.known_findings(PID):
+        if f.get("class") == "loop_counter_shadows_variable":
+            return f
+    return None
+
+
 # ------------------------------------------------------------------ Coq terms
 
 def bcall_to_coq(c):
@@ -532,7 +606,7 @@ def main(tier):
         if o is None and col is not None:
             o = {"kind": "fresh_name_collides", "name": col}
         if o is not None:
-            key = o["kind"]
+            key = o["kind"] + (":known" if classify_known(o, prog, store) else "")
             if key not in failing or len(prog) < len(failing[key][0]):
                 failing[key] = (prog, store, o)
         built = read_builder(cb)
@@ -550,10 +624,15 @@ def main(tier):
             term_idx.append(ci)
 
     for key, (prog, store, o) in sorted(failing.items()):
+        kf = classify_known(o, prog, store)
+        if kf is not None:
+            rep.known_finding(kf["what_fails"])
+            continue
+
         def fails(p, s, kind=o["kind"]):
             nm, cb2 = fresh_names(p)
             oo, _ = oracle(random.Random(1), p, cb2, nm, s)
-            return oo is not None and oo["kind"] == kind
+            return oo is not None and oo["kind"] == kind and classify_known(oo, p, s) is None
         prog2 = shrink(prog, store, fails) if o["kind"] == "schedule_differs" else prog
         nm, cb2 = fresh_names(prog2)
         o2, _ = oracle(random.Random(1), prog2, cb2, nm, store)
